@@ -44,7 +44,7 @@ def features(case, events):
 def run(ctx):
     rng = ctx.rng
     n = ctx.count(4000)
-    cases = [sg.gen_case(rng) for _ in range(n)]
+    cases = sg.regress_cases() + [sg.gen_case(rng) for _ in range(n)]
     lines = [sg.case_val(c) for c in cases]
     co = vlib.code(301, lines)
     mo = vlib.model(301, lines)
